@@ -73,7 +73,8 @@ func (g *sg) tree(d int) val.V {
 			return val.I(g.pick("i", 9))
 		case 4:
 			// placeholder-looking text inside a string literal stays text
-			return val.S(rapid.SampledFrom([]string{"$a is $b", "cost: $N", ";; $x 1", "$", "$missing", "a\n;; $a 5\nb", "{\"k\": \"$a\"}"}).Draw(g.t, "phstr"))
+			return val.S(rapid.SampledFrom([]string{"$a is $b", "cost: $N", ";; $x 1", "$", "$missing", "a\n;; $a 5\nb", "{\"k\": \"$a\"}",
+				"Dear $a,\r\nsee you\r\n", "line one\r\n;; $b 2\r\nline three", "x\ry"}).Draw(g.t, "phstr"))
 		case 5:
 			return val.Y(rapid.SampledFrom([]string{"f", "def", "+", "quote", "x"}).Draw(g.t, "sym"))
 		case 6:
@@ -162,6 +163,11 @@ func tokens(v val.V, short bool) []gen.Tok {
 			}
 			out = append(out, gen.Tok{Text: "}", Close: true})
 		default:
+			if v.K == val.Str && strings.Contains(v.S, "\r") && !strings.Contains(v.S, "¬") {
+				// a multi-line raw string token (the only literal that spans lines), line ends as they are
+				out = append(out, gen.Tok{Text: "¬" + v.S + "¬"})
+				return
+			}
 			out = append(out, gen.Tok{Text: val.Literal(v)})
 		}
 	}
